@@ -29,6 +29,8 @@ import (
 	"container/list"
 	"crypto/sha256"
 	"fmt"
+	"os"
+	"runtime"
 	"sort"
 	"strconv"
 	"strings"
@@ -60,8 +62,10 @@ type listAPI interface {
 	MoveAfter(e, m any)
 	PushBackList(o listAPI)
 	PushFrontList(o listAPI)
-	Values() []int
-	RevValues() []int
+	// Walk / RevWalk: the values met by the library's own forward / backward traversal, never more than cap
+	// steps; cyc reports that the traversal did not end within the bound (the ring is cyclic).
+	Walk(cap int) (vals []int, cyc bool)
+	RevWalk(cap int) (vals []int, cyc bool)
 	Prev(e any) any
 	Next(e any) any
 	Value(e any) int
@@ -100,19 +104,53 @@ func (a hiveL) MoveBefore(e, m any)           { a.l.MoveBefore(hel(e), hel(m)) }
 func (a hiveL) MoveAfter(e, m any)            { a.l.MoveAfter(hel(e), hel(m)) }
 func (a hiveL) PushBackList(o listAPI)        { a.l.PushBackList(o.(hiveL).l) }
 func (a hiveL) PushFrontList(o listAPI)       { a.l.PushFrontList(o.(hiveL).l) }
-func (a hiveL) Values() []int                 { return a.l.Values() }
-func (a hiveL) RevValues() []int {
+
+var errBound = fmt.Errorf("step bound exceeded")
+
+// Walk uses ForEach, whose callback can abort: hive's Values()/Range cannot be stopped and would allocate
+// without end on a cyclic ring. Only when the bounded ForEach has ended are Values() and Range (the same
+// pointer walk) called and required to agree with it.
+func (a hiveL) Walk(cap int) ([]int, bool) {
 	out := []int{}
-	_ = a.l.ForEachReverse(func(v int) error {
-		out = append(out, v)
-		if len(out) > 4096 {
-			return fmt.Errorf("runaway")
+	if err := a.l.ForEach(func(v int) error {
+		if len(out) >= cap {
+			return errBound
 		}
+		out = append(out, v)
 
 		return nil
-	})
+	}); err != nil {
+		return out, true
+	}
+	vs := a.l.Values()
+	n := 0
+	a.l.Range(func(int) { n++ })
+	if fmt.Sprint(vs) != fmt.Sprint(out) || n != len(out) {
+		return append(out, -999999), false // Values()/Range disagree with ForEach: shows up as a difference
+	}
 
-	return out
+	return out, false
+}
+
+func (a hiveL) RevWalk(cap int) ([]int, bool) {
+	out := []int{}
+	if err := a.l.ForEachReverse(func(v int) error {
+		if len(out) >= cap {
+			return errBound
+		}
+		out = append(out, v)
+
+		return nil
+	}); err != nil {
+		return out, true
+	}
+	n := 0
+	a.l.RangeReverse(func(int) { n++ })
+	if n != len(out) {
+		return append(out, -999999), false
+	}
+
+	return out, false
 }
 func (a hiveL) Prev(e any) any  { return hany(hel(e).Prev()) }
 func (a hiveL) Next(e any) any  { return hany(hel(e).Next()) }
@@ -159,21 +197,28 @@ func (a stdL) MoveBefore(e, m any)           { a.l.MoveBefore(sel(e), sel(m)) }
 func (a stdL) MoveAfter(e, m any)            { a.l.MoveAfter(sel(e), sel(m)) }
 func (a stdL) PushBackList(o listAPI)        { a.l.PushBackList(o.(stdL).l) }
 func (a stdL) PushFrontList(o listAPI)       { a.l.PushFrontList(o.(stdL).l) }
-func (a stdL) Values() []int {
+func (a stdL) Walk(cap int) ([]int, bool) {
 	out := []int{}
-	for e := a.l.Front(); e != nil && len(out) <= 4096; e = e.Next() {
+	for e := a.l.Front(); e != nil; e = e.Next() {
+		if len(out) >= cap {
+			return out, true
+		}
 		out = append(out, ival(e.Value))
 	}
 
-	return out
+	return out, false
 }
-func (a stdL) RevValues() []int {
+
+func (a stdL) RevWalk(cap int) ([]int, bool) {
 	out := []int{}
-	for e := a.l.Back(); e != nil && len(out) <= 4096; e = e.Prev() {
+	for e := a.l.Back(); e != nil; e = e.Prev() {
+		if len(out) >= cap {
+			return out, true
+		}
 		out = append(out, ival(e.Value))
 	}
 
-	return out
+	return out, false
 }
 func (a stdL) Prev(e any) any  { return sany(sel(e).Prev()) }
 func (a stdL) Next(e any) any  { return sany(sel(e).Next()) }
@@ -361,12 +406,23 @@ func ints(v []int) string {
 	return "[" + strings.Join(s, " ") + "]"
 }
 
+// bound is the step bound of every traversal: no ring can have more nodes than were ever created.
+func (w *world) bound() int { return 4*(w.fresh-3) + 8 }
+
+func walked(vals []int, cyc bool) string {
+	if cyc {
+		return "cycle"
+	}
+
+	return ints(vals)
+}
+
 // observe prints everything the property talks about.
 func (w *world) observe() string {
 	var b strings.Builder
 	for i, nm := range []string{"A", "B"} {
 		l := w.l[i]
-		fmt.Fprintf(&b, "%s %d f=%s b=%s %s %s ", nm, l.Len(), w.nm(l.Front()), w.nm(l.Back()), ints(l.Values()), ints(l.RevValues()))
+		fmt.Fprintf(&b, "%s %d f=%s b=%s %s %s ", nm, l.Len(), w.nm(l.Front()), w.nm(l.Back()), walked(l.Walk(w.bound())), walked(l.RevWalk(w.bound())))
 	}
 	b.WriteString("H")
 	for id := 3; id < w.fresh; id++ {
@@ -416,13 +472,13 @@ func (w *world) runaway() bool {
 		l := w.l[i]
 		n := 0
 		for e := l.Front(); e != nil; e = l.Next(e) {
-			if n++; n > 4096 {
+			if n++; n > w.bound() {
 				return true
 			}
 		}
 		n = 0
 		for e := l.Back(); e != nil; e = l.Prev(e) {
-			if n++; n > 4096 {
+			if n++; n > w.bound() {
 				return true
 			}
 		}
@@ -440,10 +496,10 @@ func (w *world) sane(i int) (ok bool) {
 	if p := hx.Safely(func() {
 		l := w.l[i]
 		var fwd, bwd []any
-		for e := l.Front(); e != nil && len(fwd) < 4096; e = l.Next(e) {
+		for e := l.Front(); e != nil && len(fwd) <= w.bound(); e = l.Next(e) {
 			fwd = append(fwd, e)
 		}
-		for e := l.Back(); e != nil && len(bwd) < 4096; e = l.Prev(e) {
+		for e := l.Back(); e != nil && len(bwd) <= w.bound(); e = l.Prev(e) {
 			bwd = append(bwd, e)
 		}
 		if l.Len() != len(fwd) || len(fwd) != len(bwd) {
@@ -466,7 +522,7 @@ func (w *world) sane(i int) (ok bool) {
 func (w *world) live(i int) []int {
 	var out []int
 	l := w.l[i]
-	for e, n := l.Front(), 0; e != nil && n < 4096; e, n = l.Next(e), n+1 {
+	for e, n := l.Front(), 0; e != nil && n <= w.bound(); e, n = l.Next(e), n+1 {
 		if id, ok := w.n[e]; ok { // the sentinel (reachable on a corrupted ring) is not a handle
 			out = append(out, id)
 		}
@@ -597,6 +653,7 @@ func runCase(r *hx.Run, sub uint64, ops []string) {
 		}
 		t.before(f)
 		trail = append(trail, op)
+		lastTrail.Store(strings.Join(trail, "; "))
 		sres, sobs := std.do(f)
 		if wild && std.runaway() {
 			r.Count("case:stopped-runaway")
@@ -646,6 +703,8 @@ func runCase(r *hx.Run, sub uint64, ops []string) {
 			case hw.res == "deadlock" || hw.obs == "deadlock":
 				what = "deadlock"
 				deadlocks++
+			case strings.Contains(hw.obs, "cycle") && !strings.Contains(sobs, "cycle"):
+				what = "ring" // a traversal of the hive list does not come back to the sentinel
 			case hw.res != sres && (hw.res == "panic" || sres == "panic"):
 				what = "panic"
 			case hw.res != sres:
@@ -806,18 +865,25 @@ func checkQuiescent(r *hx.Run, mode string, l ds.List[int], inserted, removed ma
 	fail := func(what, detail string) {
 		r.Fail("thread-safe-list-concurrent", mode+": "+detail, map[string]string{"part": "concurrent", "mode": mode, "what": what})
 	}
+	// every traversal is bounded: a ring cannot have more nodes than were inserted (plus slack)
+	bound := 4*len(inserted) + 8
 	var fwd, bwd []int
 	if p := hx.Safely(func() {
-		for e := l.Front(); e != nil && len(fwd) < 1<<20; e = e.Next() {
+		for e := l.Front(); e != nil && len(fwd) <= bound; e = e.Next() {
 			fwd = append(fwd, e.Value())
 		}
-		for e := l.Back(); e != nil && len(bwd) < 1<<20; e = e.Prev() {
+		for e := l.Back(); e != nil && len(bwd) <= bound; e = e.Prev() {
 			bwd = append(bwd, e.Value())
 		}
 	}); p != "" {
 		fail("panic", "walking the list at quiescence panicked: "+p)
 
 		return
+	}
+	if len(fwd) > bound || len(bwd) > bound {
+		fail("ring", fmt.Sprintf("cycle: a walk did not come back to the sentinel within %d steps (%d elements were inserted)", bound, len(inserted)))
+
+		return // Values()/Range of the list itself would never end
 	}
 	if len(fwd) != len(bwd) {
 		fail("ring", fmt.Sprintf("forward walk has %d elements, backward walk %d", len(fwd), len(bwd)))
@@ -925,7 +991,14 @@ func stressRound(r *hx.Run, rng *hx.Rng, goroutines, opsEach int) (ops int) {
 					default:
 						what = "read"
 						_ = l.Len()
-						_ = l.Values()
+						n := 0
+						_ = l.ForEach(func(int) error { // bounded: Values()/Range cannot be stopped on a cyclic ring
+							if n++; n > 4*goroutines*opsEach+64 {
+								return errBound
+							}
+
+							return nil
+						})
 						if f := l.Front(); f != nil {
 							_ = f.Next()
 						}
@@ -1020,7 +1093,14 @@ func forcedPair(r *hx.Run, variant string, useForEach bool) {
 			return
 		}
 	}
-	<-readerDone
+	select {
+	case <-readerDone:
+	case <-time.After(10 * time.Second):
+		r.Fail("thread-safe-list-concurrent", mode+": the released reader did not finish its traversal within 10s",
+			map[string]string{"part": "concurrent", "mode": mode, "what": "ring"})
+
+		return
+	}
 	checkQuiescent(r, mode, l, inserted, removed)
 }
 
@@ -1046,8 +1126,39 @@ func concurrentSmoke(r *hx.Run) {
 
 // endregion ///////////////////////////////////////////////////////////////////////////////////////
 
+// lastResort turns a run-away harness (a leaked goroutine allocating without end, a hang nothing else caught)
+// into an oracle failure while the process can still write its results: GOMEMLIMIT is only a soft limit.
+func lastResort(r *hx.Run, trail *atomic.Value) {
+	start := time.Now()
+	limit := 45 * time.Minute
+	var once sync.Once
+	for {
+		time.Sleep(200 * time.Millisecond)
+		var m runtime.MemStats
+		runtime.ReadMemStats(&m)
+		why := ""
+		if m.HeapAlloc > 3<<30 {
+			why = fmt.Sprintf("heap grew to %d MiB", m.HeapAlloc>>20)
+		} else if time.Since(start) > limit {
+			why = "still running after " + limit.String()
+		}
+		if why == "" {
+			continue
+		}
+		once.Do(func() {
+			last, _ := trail.Load().(string)
+			r.Fail("harness-watchdog", why+"; last history: ["+last+"]", map[string]string{"part": "watchdog", "what": "runaway"})
+			r.Finish()
+			os.Exit(0)
+		})
+	}
+}
+
+var lastTrail atomic.Value
+
 func main() {
 	r := hx.Start()
+	go lastResort(r, &lastTrail)
 	r.Rule = "random histories (40 ops) over two lists of length <= 8, both flavours of each list in every case; handles: " +
 		"live / other list / removed (three-way with Lean), stale-after-Init (two-way vs container/list, every 7th case " +
 		"stale-focused); thread-safe flavour additionally: concurrent stress rounds and forced two-writer schedules; " +
